@@ -38,6 +38,13 @@ type vAddr struct{ s string }
 func (a *vAddr) Network() string { return "tcp" }
 func (a *vAddr) String() string  { return a.s }
 
+// vSetCursor puts the round-robin cursor into the state that `accepts` calls of next() since start-up leave it in
+// (the cursor starts at 0 and is advanced by one per call, so it holds accepts modulo the width of its type). It is
+// generic over the cursor's integer type so that the harness still builds when that type changes.
+func vSetCursor[T uint8 | uint16 | uint32 | uint64 | uint | int32 | int64 | int](p *T, accepts uint64) {
+	*p = T(accepts)
+}
+
 // verif: mode=int unwind=300
 func VH_C15_RoundRobin() {
 	lb := new(roundRobinLoadBalancer)
@@ -45,7 +52,7 @@ func VH_C15_RoundRobin() {
 	els := vLoops(lb, n)
 	start := vNondetUint64("nextIndex")
 	vAssume(start < 1<<63) // 2^63 accepts are outside any real history
-	lb.nextIndex = start
+	vSetCursor(&lb.nextIndex, start)
 	a := lb.next(nil)
 	b := lb.next(nil)
 	vAssert("C15.rr.registered", a != nil && b != nil && a.idx >= 0 && a.idx < n && els[a.idx] == a && els[b.idx] == b)
@@ -64,7 +71,7 @@ func VH_C15_RoundRobinCounts() {
 	k := vPickK()
 	start := vNondetUint64("nextIndex")
 	vAssume(start < 1<<63)
-	lb.nextIndex = start
+	vSetCursor(&lb.nextIndex, start)
 	var got [8]int
 	for i := 0; i < k*n; i++ {
 		got[lb.next(nil).idx]++
